@@ -1,62 +1,97 @@
 (* The fragment {sleep(d), sleep_until(t), log} of the task scripts of coq/Timer/Model.v:
    what the property demands of a task (exp_run), and what one poll of such a task does. *)
 From Coq Require Import List NArith Bool Lia ZifyBool.
-From DesVerif Require Import CQueue.Spec Timer.Driver Timer.Futures Timer.Model.
+From DesVerif Require Import CQueue.Spec Timer.Driver Timer.QueueLemmas Timer.Inv Timer.Futures Timer.FutureLaws Timer.TempOps Timer.Model.
 Import ListNotations.
 Open Scope N_scope.
 
+(* finite durations: a duration >= FARK stands for Duration::MAX (coq/Timer/Model.v [dl]) *)
 Definition frag_step (s : step) : Prop :=
-  match s with SSleep _ | SSleepUntil _ | SLog => True | _ => False end.
+  match s with
+  | SSleep _ | SSleepUntil _ | SLog => True
+  | SReset _ d1 d2 => d1 < FARK /\ d2 < FARK
+  | SDropSleep d => d < FARK
+  | _ => False
+  end.
 
 (* the log the property demands of a task that is at instant [now] with [steps] to go:
-   every await returns at exactly its deadline *)
+   every await returns at exactly its deadline; a reset Sleep at its NEW deadline; polling and
+   dropping a Sleep takes no time *)
 Fixpoint exp_run (now : N) (steps : list step) : list N :=
   match steps with
   | [] => []
   | SSleep d :: r => (now + d) :: exp_run (now + d) r
   | SSleepUntil t :: r => N.max now t :: exp_run (N.max now t) r
+  | SReset _ _ d2 :: r => (now + d2) :: exp_run (now + d2) r
   | _ :: r => now :: exp_run now r
   end.
 
 Definition dl_of (now : N) (st : step) : N :=
-  match st with SSleep d => now + d | SSleepUntil t => t | _ => now end.
+  match st with SSleep d => now + d | SSleepUntil t => t | SReset _ _ d2 => dl now d2 | _ => now end.
+
+(* the driver after the preparations of a step: reset = the pinned Sleep is created, polled
+   (registered) if asked, and reset -- which removes the entry again; drop = created, polled, dropped *)
+Definition prep_drv (now nid : N) (st : step) (dr : driver) : driver :=
+  match st with
+  | SReset polled d1 d2 => snd (reset_prep now polled (dl now d1) (dl now d2) nid dr)
+  | SDropSleep d => let '(_, s1, dr1) := sleep_poll now (sleep_new (dl now d) nid) dr in sleep_drop s1 dr1
+  | _ => dr
+  end.
 
 (* one poll of a task that is not awaiting anything: (log entries, the Sleep it blocks on
-   with the steps still to go, next Sleep id) *)
-Fixpoint frag_run (now nid : N) (steps : list step) : list N * option (sleep * list step) * N :=
+   with the steps still to go, next Sleep id, the driver afterwards) *)
+Fixpoint frag_run (now nid : N) (steps : list step) (dr : driver) : list N * option (sleep * list step) * N * driver :=
   match steps with
-  | [] => ([], None, nid)
+  | [] => ([], None, nid, dr)
   | st :: r =>
     match st with
-    | SLog => let '(o, b, n) := frag_run now nid r in (now :: o, b, n)
-    | SSleep _ | SSleepUntil _ =>
+    | SLog => let '(o, b, n, d') := frag_run now nid r dr in (now :: o, b, n, d')
+    | SDropSleep _ => let '(o, b, n, d') := frag_run now (nid + 1) r (prep_drv now nid st dr) in (now :: o, b, n, d')
+    | SSleep _ | SSleepUntil _ | SReset _ _ _ =>
+      let dr1 := prep_drv now nid st dr in
       if now <? dl_of now st
-      then ([], Some ({| deadline := dl_of now st; sid := nid; handle := Some (dl_of now st) |}, st :: r), nid + 1)
-      else let '(o, b, n) := frag_run now (nid + 1) r in (now :: o, b, n)
-    | _ => ([], None, nid)
+      then ([], Some ({| deadline := dl_of now st; sid := nid; handle := Some (dl_of now st) |}, st :: r), nid + 1,
+            register nid (dl_of now st) dr1)
+      else let '(o, b, n, d') := frag_run now (nid + 1) r dr1 in (now :: o, b, n, d')
+    | _ => ([], None, nid, dr)
     end
   end.
 
 Definition fr_steps (b : option (sleep * list step)) : list step := match b with Some (_, l) => l | None => [] end.
 Definition fr_cur (b : option (sleep * list step)) : option aw := match b with Some (s, _) => Some (AwSleep s) | None => None end.
-Definition fr_drv (b : option (sleep * list step)) (dr : driver) : driver :=
-  match b with Some (s, _) => register (sid s) (deadline s) dr | None => dr end.
+
+Lemma dl_fin now d : d < FARK -> dl now d = now + d.
+Proof. intros H. unfold dl. replace (FARK <=? d) with false by lia. reflexivity. Qed.
 
 Lemma run_steps_frag now m k steps : Forall frag_step steps -> forall dr nid lg mail,
   run_steps now m k steps None None dr nid lg mail =
-  let '(o, b, n) := frag_run now nid steps in
-  (fr_steps b, fr_cur b, None, fr_drv b dr, n, lg ++ o, false, mail).
+  let '(o, b, n, d') := frag_run now nid steps dr in
+  (fr_steps b, fr_cur b, None, d', n, lg ++ o, false, mail).
 Proof.
   induction 1 as [|st r Hst Hr IH]; intros dr nid lg mail.
-  - cbn [run_steps frag_run fr_steps fr_cur fr_drv iv_drop]. rewrite app_nil_r. reflexivity.
-  - destruct st; try contradiction; cbn [run_steps start_step start_step0 poll_aw poll_aw0 fst snd frag_run dl_of].
+  - cbn [run_steps frag_run fr_steps fr_cur iv_drop]. rewrite app_nil_r. reflexivity.
+  - destruct st; try contradiction; cbn [run_steps start_step start_step0 poll_aw poll_aw0 fst snd frag_run dl_of prep_drv].
     + unfold sleep_poll, sleep_new. cbn [deadline handle sid].
-      destruct (now <? now + d); cbn [fr_steps fr_cur fr_drv]; [rewrite app_nil_r; reflexivity|].
-      rewrite IH. destruct (frag_run now (nid + 1) r) as [[o b] n]. rewrite <- app_assoc. reflexivity.
+      destruct (now <? now + d); cbn [fr_steps fr_cur]; [rewrite app_nil_r; reflexivity|].
+      rewrite IH. destruct (frag_run now (nid + 1) r dr) as [[[o b] n] d']. rewrite <- app_assoc. reflexivity.
     + unfold sleep_poll, sleep_new. cbn [deadline handle sid].
-      destruct (now <? t); cbn [fr_steps fr_cur fr_drv]; [rewrite app_nil_r; reflexivity|].
-      rewrite IH. destruct (frag_run now (nid + 1) r) as [[o b] n]. rewrite <- app_assoc. reflexivity.
-    + rewrite IH. destruct (frag_run now nid r) as [[o b] n]. rewrite <- app_assoc. reflexivity.
+      destruct (now <? t); cbn [fr_steps fr_cur]; [rewrite app_nil_r; reflexivity|].
+      rewrite IH. destruct (frag_run now (nid + 1) r dr) as [[[o b] n] d']. rewrite <- app_assoc. reflexivity.
+    + (* reset *)
+      unfold reset_prep.
+      destruct (if polled then let '(_, s1, dr1) := sleep_poll now (sleep_new (dl now d1) nid) dr in (s1, dr1)
+                else (sleep_new (dl now d1) nid, dr)) as [s1 dr1] eqn:E1.
+      assert (Hsid : sid s1 = nid).
+      { destruct polled; [|injection E1 as <- _; reflexivity].
+        pose proof (sleep_poll_sid now (sleep_new (dl now d1) nid) dr) as Hs.
+        destruct (sleep_poll now (sleep_new (dl now d1) nid) dr) as [[r0 s1'] dr1']. injection E1 as <- _. exact Hs. }
+      unfold sleep_reset. cbn [snd fst poll_aw poll_aw0]. unfold sleep_poll. cbn [deadline handle sid]. rewrite Hsid.
+      destruct (now <? dl now d2); cbn [fr_steps fr_cur fst snd]; [rewrite app_nil_r; reflexivity|].
+      rewrite IH. destruct (frag_run now (nid + 1) r _) as [[[o b] n] d']. rewrite <- app_assoc. reflexivity.
+    + (* drop *)
+      destruct (sleep_poll now (sleep_new (dl now d) nid) dr) as [[r0 s1] dr1]. cbn [fst snd].
+      rewrite IH. destruct (frag_run now (nid + 1) r (sleep_drop s1 dr1)) as [[[o b] n] d']. rewrite <- app_assoc. reflexivity.
+    + rewrite IH. destruct (frag_run now nid r dr) as [[[o b] n] d']. rewrite <- app_assoc. reflexivity.
 Qed.
 
 (* the task is polled when the Sleep it awaits is due *)
@@ -68,10 +103,25 @@ Proof.
   replace (now <? deadline s) with false by lia. reflexivity.
 Qed.
 
-(* what one poll emits, and where it leaves the task, against the demanded log *)
-Lemma frag_run_spec now steps : Forall frag_step steps -> forall nid,
-  let '(o, b, n) := frag_run now nid steps in
-  nid <= n /\
+(* the preparations of a step leave the entries of the driver as they were *)
+Lemma prep_drv_spec now nid st dr : frag_step st -> Mid now dr -> fresh_in nid (pending dr) ->
+  acts now dr (prep_drv now nid st dr) /\ forall x, ents_at x (pending (prep_drv now nid st dr)) = ents_at x (pending dr).
+Proof.
+  intros Hst Hm Hf. pose proof (mid_sorted _ _ Hm) as Hs.
+  destruct st; try contradiction; cbn [prep_drv]; try (split; [apply acts_refl|reflexivity]).
+  - destruct (reset_prep_spec now polled (dl now d1) (dl now d2) nid dr Hs Hf) as (_ & H2 & H3). split; assumption.
+  - split; [apply poll_drop_acts|]. intros x. apply poll_drop_ents; assumption.
+Qed.
+
+(* what one poll emits, where it leaves the task against the demanded log, and what it does
+   to the driver: contract-respecting operations whose net effect on the entries is the
+   registration of the Sleep the task blocks on *)
+Lemma frag_run_spec now steps : Forall frag_step steps -> forall nid dr,
+  Mid now dr -> (forall x id, In id (ents_at x (pending dr)) -> id < nid) ->
+  let '(o, b, n, d') := frag_run now nid steps dr in
+  nid <= n /\ acts now dr d' /\
+  (forall x, ents_at x (pending d') =
+             ents_at x (pending dr) ++ match b with Some (s, _) => if x =? deadline s then [sid s] else [] | None => [] end) /\
   match b with
   | None => exp_run now steps = o
   | Some (s, l) =>
@@ -80,26 +130,76 @@ Lemma frag_run_spec now steps : Forall frag_step steps -> forall nid,
       now < deadline s /\ handle s = Some (deadline s) /\ nid <= sid s /\ sid s < n
   end.
 Proof.
-  induction 1 as [|st r Hst Hr IH]; intros nid; [cbn [frag_run exp_run]; split; [lia|reflexivity]|].
-  destruct st; try contradiction; cbn [frag_run exp_run dl_of].
-  - destruct (now <? now + d) eqn:E.
-    + split; [lia|]. exists (SSleep d), r. cbn [deadline handle sid app]. repeat split; try assumption; lia.
-    + specialize (IH (nid + 1)). destruct (frag_run now (nid + 1) r) as [[o b] n]. destruct IH as [Hn Hb].
-      split; [lia|]. replace (now + d) with now by lia. destruct b as [[s l]|].
-      * destruct Hb as (st & rest & -> & Hf & He & H1 & H2 & H3 & H4). exists st, rest.
-        cbn [app]. rewrite He. repeat split; try assumption; lia.
-      * rewrite Hb. reflexivity.
-  - destruct (now <? t) eqn:E.
-    + split; [lia|]. exists (SSleepUntil t), r. cbn [deadline handle sid app]. replace (N.max now t) with t by lia.
-      repeat split; try assumption; lia.
-    + specialize (IH (nid + 1)). destruct (frag_run now (nid + 1) r) as [[o b] n]. destruct IH as [Hn Hb].
-      split; [lia|]. replace (N.max now t) with now by lia. destruct b as [[s l]|].
-      * destruct Hb as (st & rest & -> & Hf & He & H1 & H2 & H3 & H4). exists st, rest.
-        cbn [app]. rewrite He. repeat split; try assumption; lia.
-      * rewrite Hb. reflexivity.
-  - specialize (IH nid). destruct (frag_run now nid r) as [[o b] n]. destruct IH as [Hn Hb].
-    split; [exact Hn|]. destruct b as [[s l]|].
-    + destruct Hb as (st & rest & -> & Hf & He & H1 & H2 & H3 & H4). exists st, rest.
-      cbn [app]. rewrite He. repeat split; assumption.
-    + rewrite Hb. reflexivity.
+  induction 1 as [|st r Hst Hr IH]; intros nid dr Hm Hfr.
+  { cbn [frag_run exp_run]. split; [lia|]. split; [apply acts_refl|]. split; [intros x; rewrite app_nil_r; reflexivity|reflexivity]. }
+  assert (Hf : fresh_in nid (pending dr)) by (intros x Hin; specialize (Hfr x nid Hin); lia).
+  destruct (prep_drv_spec now nid st dr Hst Hm Hf) as [Hpa Hpe].
+  assert (Hm1 : Mid now (prep_drv now nid st dr)) by exact (acts_mid _ _ _ Hpa Hm).
+  assert (Hfr1 : forall x id, In id (ents_at x (pending (prep_drv now nid st dr))) -> id < nid + 1).
+  { intros x id Hin. rewrite Hpe in Hin. specialize (Hfr x id Hin). lia. }
+  (* the three shapes: a step that may block, a step that does not, log *)
+  assert (Hblock : forall D, dl_of now st = D -> now < D ->
+    (exp_run now (st :: r) = D :: exp_run D r) ->
+    let s := {| deadline := D; sid := nid; handle := Some D |} in
+    nid <= nid + 1 /\ acts now dr (register nid D (prep_drv now nid st dr)) /\
+    (forall x, ents_at x (pending (register nid D (prep_drv now nid st dr))) =
+               ents_at x (pending dr) ++ (if x =? deadline s then [sid s] else [])) /\
+    exists st' rest, st :: r = st' :: rest /\ Forall frag_step rest /\
+      exp_run now (st :: r) = [] ++ deadline s :: exp_run (deadline s) rest /\
+      now < deadline s /\ handle s = Some (deadline s) /\ nid <= sid s /\ sid s < nid + 1).
+  { intros D HD Hlt Hexp. cbn zeta. split; [lia|]. split.
+    - eapply acts_trans; [exact Hpa|]. apply (acts_one now _ (Register nid D)). exact Hlt.
+    - split.
+      + intros x. cbn [register set_pending pending deadline sid]. rewrite (ents_at_add _ _ _ _ (mid_sorted _ _ Hm1)), !Hpe.
+        destruct (x =? D) eqn:E; [replace x with D by lia; reflexivity|rewrite app_nil_r; reflexivity].
+      + exists st, r. cbn [deadline handle sid app]. repeat split; try assumption; lia. }
+  assert (Hpass : forall nid' dr', nid <= nid' -> acts now dr dr' -> Mid now dr' ->
+     (forall x, ents_at x (pending dr') = ents_at x (pending dr)) ->
+     (exp_run now (st :: r) = now :: exp_run now r) ->
+     let '(o, b, n, d') := frag_run now nid' r dr' in
+     nid <= n /\ acts now dr d' /\
+     (forall x, ents_at x (pending d') =
+                ents_at x (pending dr) ++ match b with Some (s, _) => if x =? deadline s then [sid s] else [] | None => [] end) /\
+     match b with
+     | None => exp_run now (st :: r) = now :: o
+     | Some (s, l) =>
+       exists st' rest, l = st' :: rest /\ Forall frag_step rest /\
+         exp_run now (st :: r) = (now :: o) ++ deadline s :: exp_run (deadline s) rest /\
+         now < deadline s /\ handle s = Some (deadline s) /\ nid <= sid s /\ sid s < n
+     end).
+  { intros nid' dr' Hn Ha Hm' He Hexp.
+    assert (Hfr' : forall x id, In id (ents_at x (pending dr')) -> id < nid') by (intros x id Hin; rewrite He in Hin; specialize (Hfr x id Hin); lia).
+    specialize (IH nid' dr' Hm' Hfr'). destruct (frag_run now nid' r dr') as [[[o b] n] d'].
+    destruct IH as (I1 & I2 & I3 & I4). split; [lia|]. split; [exact (acts_trans _ _ _ _ Ha I2)|].
+    split; [intros x; rewrite I3, He; reflexivity|].
+    destruct b as [[s l]|].
+    - destruct I4 as (st' & rest & -> & Hf' & He' & H1 & H2 & H3 & H4). exists st', rest.
+      rewrite Hexp, He'. cbn [app]. repeat split; try assumption; lia.
+    - rewrite Hexp, I4. reflexivity. }
+  destruct st; try contradiction; cbn [frag_run].
+  - (* sleep *)
+    cbn [dl_of]. destruct (now <? now + d) eqn:E.
+    + apply (Hblock (now + d)); [reflexivity|lia|reflexivity].
+    + pose proof (Hpass (nid + 1) (prep_drv now nid (SSleep d) dr) ltac:(lia) Hpa Hm1 Hpe) as H.
+      cbn [prep_drv] in *. destruct (frag_run now (nid + 1) r dr) as [[[o b] n] d'].
+      apply H. cbn [exp_run]. replace (now + d) with now by lia. reflexivity.
+  - (* sleep_until *)
+    cbn [dl_of]. destruct (now <? t) eqn:E.
+    + apply (Hblock t); [reflexivity|lia|]. cbn [exp_run]. replace (N.max now t) with t by lia. reflexivity.
+    + pose proof (Hpass (nid + 1) (prep_drv now nid (SSleepUntil t) dr) ltac:(lia) Hpa Hm1 Hpe) as H.
+      cbn [prep_drv] in *. destruct (frag_run now (nid + 1) r dr) as [[[o b] n] d'].
+      apply H. cbn [exp_run]. replace (N.max now t) with now by lia. reflexivity.
+  - (* reset *)
+    destruct Hst as [Hd1 Hd2]. cbn [dl_of]. rewrite (dl_fin now d2 Hd2) in *. destruct (now <? now + d2) eqn:E.
+    + apply (Hblock (now + d2)); [cbn [dl_of]; apply dl_fin; exact Hd2|lia|reflexivity].
+    + pose proof (Hpass (nid + 1) (prep_drv now nid (SReset polled d1 d2) dr) ltac:(lia) Hpa Hm1 Hpe) as H.
+      destruct (frag_run now (nid + 1) r (prep_drv now nid (SReset polled d1 d2) dr)) as [[[o b] n] d'].
+      apply H. cbn [exp_run]. replace (now + d2) with now by lia. reflexivity.
+  - (* drop *)
+    pose proof (Hpass (nid + 1) (prep_drv now nid (SDropSleep d) dr) ltac:(lia) Hpa Hm1 Hpe) as H.
+    destruct (frag_run now (nid + 1) r (prep_drv now nid (SDropSleep d) dr)) as [[[o b] n] d'].
+    apply H. reflexivity.
+  - (* log *)
+    pose proof (Hpass nid dr ltac:(lia) (acts_refl now dr) Hm (fun x => eq_refl)) as H.
+    destruct (frag_run now nid r dr) as [[[o b] n] d']. apply H. reflexivity.
 Qed.
